@@ -322,7 +322,8 @@ Hbitwrite(int32 bitid, int count, uint32 data)
 
     /* change bitfile modes if necessary */
     if (bitfile_rec->mode == 'r')
-        HIread2write(bitfile_rec);
+        if (HIread2write(bitfile_rec) == FAIL)
+            HRETURN_ERROR(DFE_SEEKERROR, FAIL);
 
     data &= maskl[count];
 
@@ -449,7 +450,8 @@ Hbitread(int32 bitid, int count, uint32 *data)
     /* Check for write access */
     /* change bitfile modes if necessary */
     if (bitfile_rec->mode == 'w')
-        HIwrite2read(bitfile_rec);
+        if (HIwrite2read(bitfile_rec) == FAIL)
+            HRETURN_ERROR(DFE_WRITEERROR, FAIL);
 
     if (count > (int)DATANUM) /* truncate the count if it's too large */
         count = DATANUM;
